@@ -448,8 +448,9 @@ def ev_dep5(c) -> R:
         n = c["name"]
         if n in BROKEN_DEP5:
             rec[cfg] = BROKEN_DEP5[n] if BROKEN_DEP5[n] else {"empty": True}
-            must = n not in ("license-with-text", "only-header", "empty", "no-header", "bad-escape", "missing-files")
-            if n in ("only-header", "empty", "no-header", "bad-escape", "missing-files", "missing-copyright", "missing-license", "not-deb822", "bad-synopsis",
+            must = n not in ("license-with-text", "only-header", "empty", "no-header", "missing-files")
+            # (a Files pattern that cannot be compiled and a synopsis that cannot be parsed ARE errors of this file: 'bad-escape', 'bad-synopsis')
+            if n in ("only-header", "empty", "no-header", "missing-files", "missing-copyright", "missing-license", "not-deb822",
                      "empty-copyright", "blank-copyright", "empty-license", "empty-files", "duplicate-field", "standalone-license-paragraph", "two-headers", "crlf"):
                 must = False  # whether python-debian accepts these is not ours to say: only "no crash, defined exit status"
         elif n == "dep5+root-toml":
@@ -468,7 +469,7 @@ def ev_dep5(c) -> R:
             must = False
         materialise(root, rec)
         out = run_command(cmd, root)
-        judge(r, out, cmd, f"dep5 case {n}", f"dep5|{n}", config_path=None, must_be_config_error=must)
+        judge(r, out, cmd, f"dep5 case {n}", f"dep5|{n}", config_path=".reuse/dep5" if n in BROKEN_DEP5 and cmd != "convert-dep5" else None, must_be_config_error=must)
     r.evals = len(COMMANDS)
     r.outcome = "dep5"
     r.tags.append("dep5")
